@@ -72,6 +72,7 @@ func TestReplayC04(t *testing.T) {
 // and without a preceding bind.
 func TestC04Exhaustive(t *testing.T) {
 	rec := harness.Get("C04")
+	rec.SetScope("exhaustive")
 	sels := []string{"", ":1", ":first", ":last", ":all", ":2", ":x"}
 	targets := []string{"struct", "slice", "map"}
 	n := 0
